@@ -111,6 +111,119 @@ class Body:
         self._cd = {}
         self._defs = None
         self._reach_cache = {}
+        self._prune_tag_tests()
+
+    # ---- two-point abstraction of control tags: a value produced by Tag::full(..) is FULL, the constants Tag::EMPTY / Tag::DELETED
+    # are SPECIAL. A branch on Tag::is_full / Tag::is_special of a value whose every definition has the same abstract value can
+    # only go one way (this arises when an accounting helper with a `match new.is_full()` is analysed in the context of a caller
+    # that always passes one kind of tag): the other edge is infeasible and removed, like the `unreachable` edges above.
+    def _tag_kind(self, o, depth=0):
+        if depth > 8:
+            return None
+        if o["k"] == "const":
+            d = o.get("def") or ""
+            if d.endswith("Tag::EMPTY") or d.endswith("Tag::DELETED"):
+                return "special"
+            return None
+        if o["k"] not in ("copy", "move"):
+            return None
+        pl = o["p"]
+        pj = pl.get("proj") or []
+        if pj and not (len(pj) == 1 and pj[0]["k"] == "deref"):
+            return None
+        if self.is_arg(pl["l"]):
+            return None
+        ds = self.whole_defs(pl["l"])
+        if not ds or len(ds) != len(self.defs.get(pl["l"], ())):
+            return None
+        kinds = set()
+        for d in ds:
+            if d[0] == "call":
+                cp = callee_path(d[3]) or ""
+                if cp.endswith("control::tag::Tag::full"):
+                    kinds.add("full")
+                else:
+                    return None
+            else:
+                rv = d[3]["rv"]
+                if rv["k"] == "use":
+                    kinds.add(self._tag_kind(rv["op"], depth + 1))
+                elif rv["k"] == "ref" and pj:
+                    kinds.add(self._tag_kind({"k": "copy", "p": rv["p"]}, depth + 1))
+                else:
+                    return None
+        return list(kinds)[0] if len(kinds) == 1 else None
+
+    def _prune_tag_tests(self):
+        changed = False
+        for i in list(self.normal):
+            t = self.blocks[i]["term"]
+            if t["k"] != "switch" or t["discr"]["k"] not in ("copy", "move") or len(self.nsucc[i]) < 2:
+                continue
+            o = t["discr"]
+            neg = False
+            truth = None
+            for _ in range(8):
+                if o["k"] not in ("copy", "move") or o["p"].get("proj"):
+                    break
+                d = self.single_def(o["p"]["l"])
+                if not d:
+                    break
+                if d[0] == "call":
+                    cp = callee_path(d[3]) or ""
+                    if cp in PASS_THROUGH:
+                        o = d[3]["args"][0]
+                        continue
+                    if cp in ("control::tag::Tag::is_full", "control::tag::Tag::is_special") and d[3]["args"]:
+                        a = d[3]["args"][0]
+                        # the receiver is passed by value (Tag is Copy) or by reference to a local
+                        kd = self._tag_kind(a)
+                        if kd is None and a["k"] in ("copy", "move") and not a["p"].get("proj"):
+                            dr = self.single_def(a["p"]["l"])
+                            if dr and dr[0] == "stmt" and dr[3]["rv"]["k"] == "ref":
+                                kd = self._tag_kind({"k": "copy", "p": dr[3]["rv"]["p"]})
+                        if kd is not None:
+                            truth = (kd == "full") if cp.endswith("is_full") else (kd == "special")
+                    break
+                rv = d[3]["rv"]
+                if rv["k"] == "use":
+                    o = rv["op"]
+                elif rv["k"] == "unop" and rv["op"] == "Not":
+                    neg = not neg
+                    o = rv["a"]
+                else:
+                    break
+            if truth is None:
+                continue
+            if neg:
+                truth = not truth
+            want = 1 if truth else 0
+            tg = [b for v, b in t["targets"] if v == want]
+            keep = tg if tg else [t["otherwise"]]
+            new = [b for b in self.nsucc[i] if b in keep]
+            if new and new != self.nsucc[i]:
+                self.nsucc[i] = new
+                changed = True
+        if changed:
+            self.npred = defaultdict(list)
+            for a, bs in self.nsucc.items():
+                for b in bs:
+                    self.npred[b].append(a)
+            # blocks that are no longer reachable on the normal graph are not part of it
+            seen = {0}
+            st = [0]
+            while st:
+                x = st.pop()
+                for y in self.nsucc[x]:
+                    if y not in seen:
+                        seen.add(y)
+                        st.append(y)
+            dead = [b for b in self.normal if b not in seen]
+            if dead:
+                self.normal = [b for b in self.normal if b in seen]
+                self.returns = [b for b in self.returns if b in seen]
+                self.deadends = [b for b in self.deadends if b in seen]
+                self.dead_blocks = set(dead)
 
     # ------------------------------------------------------------- CFG
 
@@ -186,6 +299,235 @@ class Body:
                     st.append(m)
         self._reach_cache[key] = seen
         return seen
+
+    # ---- flag-sensitive reachability: loops controlled by a boolean the body sets itself (`while !settled { .. }`)
+    def _flag_locals(self):
+        """bool locals whose every definition is the assignment of a constant and that decide a switch of the normal graph"""
+        if getattr(self, "_flags", None) is not None:
+            return self._flags
+        cand = {}
+        for l, ds in self.defs.items():
+            if self.locals[l]["ty"].get("s") != "bool" or self.is_arg(l):
+                continue
+            ok = True
+            for d in ds:
+                if not (d[0] == "stmt" and d[3]["k"] == "assign" and not d[3]["p"].get("proj") and d[3]["rv"]["k"] == "use"
+                        and d[3]["rv"]["op"]["k"] == "const" and d[3]["rv"]["op"].get("val") in (0, 1, True, False)):
+                    ok = False
+            if ok and len(ds) >= 2:
+                cand[l] = True
+        used = set()
+        self._switch_flag = {}
+        for i in self.normal:
+            t = self.blocks[i]["term"]
+            if t["k"] != "switch":
+                continue
+            r = self._flag_of(t["discr"], cand)
+            if r:
+                used.add(r[0])
+                self._switch_flag[i] = r
+        self._flags = used
+        # switches on the variant of an enum-typed local (directly, or through Option::is_some / is_none / Result::is_ok / is_err of a
+        # reference to it): taking an edge fixes the variant for every later switch on the same (unmodified) value
+        self._discr_switch = {}
+        for i in self.normal:
+            t = self.blocks[i]["term"]
+            if t["k"] != "switch" or i in self._switch_flag:
+                continue
+            r = self._discr_of(t["discr"])
+            if r:
+                self._discr_switch[i] = r
+        return used
+
+    def _canon_local(self, l, depth=0):
+        """the local a whole-local copy chain starts from"""
+        for _ in range(10):
+            if self.is_arg(l):
+                return l
+            d = self.single_def(l)
+            if d and d[0] == "stmt" and d[3]["k"] == "assign" and d[3]["rv"]["k"] == "use" and d[3]["rv"]["op"]["k"] in ("copy", "move") \
+                    and not d[3]["rv"]["op"]["p"].get("proj"):
+                l = d[3]["rv"]["op"]["p"]["l"]
+            else:
+                return l
+        return l
+
+    def _discr_of(self, o):
+        """(canonical local, mode) if the switch operand o is the discriminant of a whole local (mode 'v': target values are
+        variant indices) or the boolean result of is_some / is_ok (mode 's': true = variant 1... see _flag_step) etc."""
+        neg = False
+        for _ in range(8):
+            if o["k"] not in ("copy", "move") or o["p"].get("proj"):
+                return None
+            d = self.single_def(o["p"]["l"])
+            if not d:
+                return None
+            if d[0] == "call":
+                cp = callee_path(d[3]) or ""
+                if cp in PASS_THROUGH:
+                    o = d[3]["args"][0]
+                    continue
+                kind = {"core::option::Option::is_some": ("opt", True), "core::option::Option::is_none": ("opt", False),
+                        "core::result::Result::is_ok": ("res", True), "core::result::Result::is_err": ("res", False)}.get(cp)
+                if not kind or not d[3]["args"] or d[3]["args"][0]["k"] not in ("copy", "move"):
+                    return None
+                a = d[3]["args"][0]["p"]
+                if a.get("proj"):
+                    return None
+                dr = self.single_def(a["l"])
+                if not (dr and dr[0] == "stmt" and dr[3]["rv"]["k"] == "ref" and not dr[3]["rv"]["p"].get("proj")):
+                    return None
+                # Option: None = 0, Some = 1;  Result: Ok = 0, Err = 1
+                true_variant = (1 if kind[1] else 0) if kind[0] == "opt" else (0 if kind[1] else 1)
+                return (self._canon_local(dr[3]["rv"]["p"]["l"]), "b", true_variant, neg)
+            rv = d[3]["rv"]
+            if rv["k"] == "use":
+                o = rv["op"]
+            elif rv["k"] == "unop" and rv["op"] == "Not":
+                neg = not neg
+                o = rv["a"]
+            elif rv["k"] == "discriminant" and not rv["p"].get("proj"):
+                return (self._canon_local(rv["p"]["l"]), "v", None, False)
+            else:
+                return None
+        return None
+
+    def _flag_of(self, o, cand, depth=0):
+        """(flag local, negated) if operand o is a copy / negation chain of a flag local"""
+        neg = False
+        for _ in range(8):
+            if o["k"] not in ("copy", "move") or o["p"].get("proj"):
+                return None
+            l = o["p"]["l"]
+            if l in cand:
+                return (l, neg)
+            d = self.single_def(l)
+            if not d or d[0] != "stmt":
+                return None
+            rv = d[3]["rv"]
+            if rv["k"] == "use":
+                o = rv["op"]
+            elif rv["k"] == "unop" and rv["op"] == "Not":
+                neg = not neg
+                o = rv["a"]
+            else:
+                return None
+        return None
+
+    def _flag_step(self, b, env):
+        """successor states of (block b, env) - env: frozenset of (flag, value)"""
+        flags = self._flag_locals()
+        e = dict(env)
+        for s in self.blocks[b]["stmts"]:
+            if s["k"] == "assign" and not s["p"].get("proj") and s["p"]["l"] in flags and s["rv"]["k"] == "use" and s["rv"]["op"]["k"] == "const":
+                e[s["p"]["l"]] = 1 if s["rv"]["op"].get("val") in (1, True) else 0
+        succ = list(self.nsucc[b])
+        sf = self._switch_flag.get(b)
+        if sf and sf[0] in e:
+            v = e[sf[0]] ^ (1 if sf[1] else 0)
+            t = self.blocks[b]["term"]
+            tg = [x for val, x in t["targets"] if val == v]
+            succ = tg if tg else [t["otherwise"]]
+            succ = [x for x in succ if x in self.nsucc[b]]
+        ds = self._discr_switch.get(b)
+        if ds and succ == list(self.nsucc[b]):
+            t = self.blocks[b]["term"]
+            c, mode, tv, neg = ds
+            known = e.get(("d", c))
+            out = []
+            for x in succ:
+                vals = [val for val, y in t["targets"] if y == x]
+                is_other = (t["otherwise"] == x)
+                if mode == "v":
+                    if known is not None:
+                        if known in vals or (is_other and known not in [v for v, _ in t["targets"]]):
+                            out.append((x, frozenset(e.items())))
+                        continue
+                    e2 = dict(e)
+                    if len(vals) == 1 and not is_other:
+                        e2[("d", c)] = vals[0]
+                    elif is_other and len(t["targets"]) == 1 and t["targets"][0][0] in (0, 1):
+                        e2[("d", c)] = 1 - t["targets"][0][0]     # two-variant enums (Option / Result)
+                    out.append((x, frozenset(e2.items())))
+                else:
+                    # boolean test: the edge for value 0 is `false`
+                    truth = not (0 in vals)
+                    if neg:
+                        truth = not truth
+                    variant = tv if truth else 1 - tv
+                    if known is not None and known != variant:
+                        continue
+                    e2 = dict(e)
+                    e2[("d", c)] = variant
+                    out.append((x, frozenset(e2.items())))
+            return out
+        fe = frozenset(e.items())
+        return [(x, fe) for x in succ]
+
+    def reachable_from_flags(self, a, avoid=()):
+        """like reachable_from for the successors of block a, but infeasible edges of switches on self-set boolean flags are
+        not followed: the states (a, flags) are those reachable from the entry block. Returns the set of blocks reachable
+        after a (a itself only if it is reached again)."""
+        flags = self._flag_locals()
+        if not flags and len(self._discr_switch) < 2:
+            out = set()
+            for x in self.nsucc[a]:
+                out |= self.reachable_from(x, avoid)
+            return out
+        # states reachable from the entry
+        seen = set()
+        st = [(0, frozenset())]
+        seen.add(st[0])
+        at_a = set()
+        while st and len(seen) < 50000:
+            b, env = st.pop()
+            if b == a:
+                at_a.add(env)
+            for nx in self._flag_step(b, env):
+                if nx not in seen:
+                    seen.add(nx)
+                    st.append(nx)
+        if len(seen) >= 50000 or not at_a:
+            out = set()
+            for x in self.nsucc[a]:
+                out |= self.reachable_from(x, avoid)
+            return out
+        out = set()
+        seen2 = set()
+        st = []
+        for env in at_a:
+            for nx in self._flag_step(a, env):
+                if nx[0] not in avoid and nx not in seen2:
+                    seen2.add(nx)
+                    st.append(nx)
+        while st:
+            b, env = st.pop()
+            out.add(b)
+            for nx in self._flag_step(b, env):
+                if nx[0] not in avoid and nx not in seen2:
+                    seen2.add(nx)
+                    st.append(nx)
+        return out
+
+    def reachable_from_entry_flags(self, avoid=()):
+        """blocks reachable from the entry block without passing through `avoid`, not following infeasible edges of flag /
+        same-value discriminant switches"""
+        self._flag_locals()
+        if 0 in avoid:
+            return set()
+        seen = {(0, frozenset())}
+        st = [(0, frozenset())]
+        out = {0}
+        while st and len(seen) < 50000:
+            b, env = st.pop()
+            for nx in self._flag_step(b, env):
+                if nx[0] not in avoid and nx not in seen:
+                    seen.add(nx)
+                    out.add(nx[0])
+                    st.append(nx)
+        if len(seen) >= 50000:
+            return self.reachable_from(0, avoid)
+        return out
 
     def can_reach_return(self, a, avoid=()):
         r = self.reachable_from(a, avoid)
@@ -440,16 +782,18 @@ class Body:
     # ------------------------------------------------------------- iteration helpers
 
     def calls(self, include_cleanup=False):
+        dead = getattr(self, "dead_blocks", ())
         for i, bb in enumerate(self.blocks):
-            if bb["cleanup"] and not include_cleanup:
+            if (bb["cleanup"] and not include_cleanup) or i in dead:
                 continue
             t = bb["term"]
             if t["k"] == "call":
                 yield i, t
 
     def stmts(self, include_cleanup=False):
+        dead = getattr(self, "dead_blocks", ())
         for i, bb in enumerate(self.blocks):
-            if bb["cleanup"] and not include_cleanup:
+            if (bb["cleanup"] and not include_cleanup) or i in dead:
                 continue
             for k, s in enumerate(bb["stmts"]):
                 yield i, k, s
